@@ -146,6 +146,9 @@ func (fr *fwdResult) check(st *State, exceptional bool) *Term {
 		if !ok {
 			continue
 		}
+		if k == "ev:recv" || (len(k) > 4 && k[:4] == "ev:r" && k[4] >= '0' && k[4] <= '9') {
+			continue // receiver and results of logged calls: auxiliary records, not part of "what was forwarded"
+		}
 		exp, ok1 := fr.expected[k]
 		pre, ok2 := fr.pre[k]
 		if !ok1 || !ok2 {
